@@ -87,7 +87,8 @@ class Aware(Sub):
     name = "aware"
     n = {"quick": 14000, "thorough": 300000}
     shards = {"quick": 3, "thorough": 8}
-    rule = "non-trivial: a transition of the zone lies between start and result, or start/result within a gap length of a transition"
+    rule = ("add / subtract / + timedelta / - timedelta / timedelta + with integer and dyadic-float amounts, starts near transitions, uniform and on calendar edges (leap-rule years x end of "
+            "February, month and year ends); non-trivial: a transition of the zone lies between start and result, or start/result within a gap length of a transition")
 
     def describe(self, case):
         return {"value": T.render(case["u"], case["zone"]).isoformat()}
